@@ -1,9 +1,129 @@
-import Fpdec.Lemmas.Dom
+import Fpdec.Props.C05
+import Fpdec.Props.C06
+import Fpdec.Props.C07
+import Fpdec.Props.C09
+import Fpdec.Props.C11
+import Fpdec.Props.C12
+import Fpdec.Props.C15
+import Fpdec.Props.C17
 import Fpdec.Props.C20_Sites
 
-/-! # C20 — property theorems (under construction: see DESIGN.md section 6) -/
+/-!
+# C20 — Results do not depend on the build profile; overflow is never silent
+
+The model carries the two rustc switches that change what plain arithmetic does (`Profile.oc` = overflow-checks, `Profile.da` =
+debug-assertions): a plain operator wraps or panics, a `debug_assert!` exists or not.  Three groups of operations:
+
+1. **No profile parameter at all** (`+ - += -=`, `checked_add/sub`, `Decimal * int`, `checked_mul(int)`, `%`, `checked_rem`, all
+   comparisons, integer conversions): every arithmetic site of their model is `checked_*` (or `/`, `%`, which behave the same in
+   every profile).  That these sites are still `checked_*` in the source is what the site ties (`tie_sites_*`) re-check on every run —
+   `checked_add → +` breaks the tie even though no dev-profile run could observe it.
+2. **Equal to a profile-free value** (`floor ceil trunc fract neg abs magnitude`, `to_string`, `Display`, `Debug`, `f64/f32::from`,
+   `as_integer_ratio`, `gcd`, `i128_div_rounded`): `*_profile_indep` — immediate from the `∀ prof` equalities of C05 … C15.
+3. **Characterised by a deterministic expectation** (`round`, `checked_round`, `*`, `/`, `mul_rounded`, `div_rounded`, `quantize`,
+   `from_str`): `*_same_obs` — for any two profiles both outcomes satisfy the same `Spec.Exp`; unless that expectation is the
+   boundary case `valOrOvf`/`any` (exact result coefficient `-2^127`, outside the Decimal domain) it determines "same value, or both
+   panic" / "same `Option`".  PARTIAL at exactly that boundary.
+Not expressible in the model (exercised by the correspondence run, which builds the driver in up to 8 profile combinations plus the
+`packed` feature and diffs the outputs line by line): opt-level, `repr(packed)`.
+-/
 
 namespace Fpdec.Props.C20
 open Fpdec Fpdec.Model
+open C17 (Determined SameObs determined determined_checked)
+
+/-! ## group 2 -/
+theorem kernel_profile_indep (p1 p2 : Profile) (tm : Mode) (mode : Option Mode) (n d : Int)
+    (hn : I128_MIN < n ∧ n ≤ I128_MAX) (hd : I128_MIN < d ∧ d ≤ I128_MAX) (hd0 : d ≠ 0) :
+    i128DivRounded p1 tm n d mode = i128DivRounded p2 tm n d mode := by
+  rw [C05.kernel_spec p1 tm mode n d hn hd hd0, C05.kernel_spec p2 tm mode n d hn hd hd0]
+
+theorem unary_profile_indep (p1 p2 : Profile) (d : Dec) (hd : Dom d) :
+    floor p1 d = floor p2 d ∧ ceil p1 d = ceil p2 d ∧ neg p1 d = neg p2 d ∧ abs p1 d = abs p2 d ∧
+    magnitude p1 d = magnitude p2 d := by
+  refine ⟨?_, ?_, ?_, ?_, ?_⟩
+  · rw [C15.floor_spec p1 d hd, C15.floor_spec p2 d hd]
+  · rw [C15.ceil_spec p1 d hd, C15.ceil_spec p2 d hd]
+  · rw [C15.neg_spec p1 d hd, C15.neg_spec p2 d hd]
+  · rw [C15.abs_spec p1 d hd, C15.abs_spec p2 d hd]
+  · rw [C15.magnitude_spec p1 d hd, C15.magnitude_spec p2 d hd]
+
+theorem text_profile_indep (p1 p2 : Profile) (tm : Mode) (f : Std.FmtSpec) (d : Dec) (hd : Dom d) :
+    toStringDec p1 d = toStringDec p2 d ∧ debugDec p1 d = debugDec p2 d ∧ display p1 tm f d = display p2 tm f d := by
+  refine ⟨?_, ?_, ?_⟩
+  · rw [C07.string_from_spec p1 d hd, C07.string_from_spec p2 d hd]
+  · rw [C07.debug_spec p1 d hd, C07.debug_spec p2 d hd]
+  · rw [C11.display_spec p1 tm f d hd, C11.display_spec p2 tm f d hd]
+
+theorem into_float_profile_indep (p1 p2 : Profile) (f : Spec.FloatFmt) (hf : f = Spec.FloatFmt.f64 ∨ f = Spec.FloatFmt.f32)
+    (d : Dec) (hd : Dom d) : intoFloat p1 f d = intoFloat p2 f d := by
+  rw [C12.into_float_spec p1 f hf d hd, C12.into_float_spec p2 f hf d hd]
+
+theorem ratio_profile_indep (p1 p2 : Profile) (d : Dec) (hd : Dom d) :
+    asIntegerRatio p1 d = asIntegerRatio p2 d ∧ hashFeed p1 d = hashFeed p2 d := by
+  obtain ⟨h1, _, _⟩ := C09.as_integer_ratio_spec p1 d hd
+  obtain ⟨h2, _, _⟩ := C09.as_integer_ratio_spec p2 d hd
+  refine ⟨by rw [h1, h2], ?_⟩
+  unfold hashFeed; rw [h1, h2]
+
+/-! ## group 3 -/
+theorem round_same_obs (p1 p2 : Profile) (tm : Mode) (d : Dec) (n : Int) (hd : Dom d) (hn : -128 ≤ n ∧ n ≤ 127)
+    (hdet : Determined (Spec.round tm d.coeff d.nfrac n)) :
+    SameObs (outPair (round p1 tm d n)) (outPair (round p2 tm d n)) ∧
+    outOptPair (checkedRound p1 tm d n) = outOptPair (checkedRound p2 tm d n) :=
+  ⟨determined _ hdet _ _ (C05.round_spec p1 tm d n hd hn) (C05.round_spec p2 tm d n hd hn),
+   determined_checked _ hdet (C05.round_exp_shape tm d.coeff d.nfrac n).2.2 _ _
+     (C05.checked_round_spec p1 tm d n hd hn) (C05.checked_round_spec p2 tm d n hd hn)⟩
+
+theorem mul_same_obs (hw : C02.WideMul) (p1 p2 : Profile) (tm : Mode) (x y : Dec) (hx : Dom x) (hy : Dom y)
+    (hdet : Determined (Spec.mul tm x.coeff x.nfrac y.coeff y.nfrac)) :
+    SameObs (outPair (mul p1 tm x y)) (outPair (mul p2 tm x y)) :=
+  determined _ hdet _ _ (C02.mul_spec hw p1 tm x y hx hy) (C02.mul_spec hw p2 tm x y hx hy)
+
+theorem div_same_obs (hw : C04.WideDiv) (p1 p2 : Profile) (tm : Mode) (x y : Dec) (hx : Dom x) (hy : Dom y)
+    (hdet : Determined (Spec.div tm x.coeff x.nfrac y.coeff y.nfrac)) :
+    SameObs (outPair (div p1 tm x y)) (outPair (div p2 tm x y)) :=
+  determined _ hdet _ _ (C03.div_spec hw p1 tm x y hx hy) (C03.div_spec hw p2 tm x y hx hy)
+
+theorem div_rounded_same_obs (hw : C04.WideDiv) (p1 p2 : Profile) (tm : Mode) (x y : Dec) (n : Nat) (hx : Dom x) (hy : Dom y)
+    (hdet : Determined (Spec.divRounded tm x.coeff x.nfrac y.coeff y.nfrac n)) :
+    SameObs (outPair (divRounded p1 tm x y n)) (outPair (divRounded p2 tm x y n)) :=
+  determined _ hdet _ _ (C04.div_rounded_spec hw p1 tm x y n hx hy) (C04.div_rounded_spec hw p2 tm x y n hx hy)
+
+theorem mul_rounded_same_obs (hw : C02.WideMul) (p1 p2 : Profile) (tm : Mode) (x y : Dec) (n : Nat) (hx : Dom x) (hy : Dom y)
+    (hdet : Determined (Spec.mulRounded tm x.coeff x.nfrac y.coeff y.nfrac n)) :
+    SameObs (outPair (mulRounded p1 tm x y n)) (outPair (mulRounded p2 tm x y n)) :=
+  determined _ hdet _ _ (C04.mul_rounded_spec hw p1 tm x y n hx hy) (C04.mul_rounded_spec hw p2 tm x y n hx hy)
+
+theorem quantize_same_obs (hwm : C02.WideMul) (hwd : C04.WideDiv) (p1 p2 : Profile) (tm : Mode) (x q : Dec) (hx : Dom x) (hq : Dom q)
+    (hdet : Determined (Spec.quantize tm false x.coeff x.nfrac q.coeff q.nfrac)) :
+    SameObs (outPair (quantize p1 tm x q)) (outPair (quantize p2 tm x q)) :=
+  determined _ hdet _ _ (C04.quantize_spec hwm hwd p1 tm x q hx hq) (C04.quantize_spec hwm hwd p2 tm x q hx hq)
+
+/-- `from_str`: the same accept/reject verdict and the same value in every profile -/
+theorem from_str_same_obs (p1 p2 : Profile) (s : List Nat) (hb : ∀ c ∈ s, c < 256) (hlen : s.length < 2 ^ 56) :
+    match fromStr p1 s, fromStr p2 s with
+    | .ok (.ok d1), .ok (.ok d2) => d1 = d2
+    | .ok (.error _), .ok (.error _) => True
+    | _, _ => False := by
+  have h1 := C06.from_str_spec p1 s hb hlen
+  have h2 := C06.from_str_spec p2 s hb hlen
+  cases hp : Spec.parseSpec s <;> rw [hp] at h1 h2 <;>
+    cases hr1 : fromStr p1 s <;> cases hr2 : fromStr p2 s <;> rw [hr1] at h1 <;> rw [hr2] at h2 <;>
+    (try (rename_i a b; cases a <;> cases b)) <;> simp_all
+
+/-- overflow is never silent: whenever the exact result of `+` does not fit, EVERY profile panics (no wrapped value) -/
+theorem add_overflow_never_silent (sub : Bool) (x y : Dec) (hx : Dom x) (hy : Dom y)
+    (h : Spec.addSub sub x.coeff x.nfrac y.coeff y.nfrac = .ovf) : ∃ k, addSub sub x y = .panic k := by
+  have hs := C01.add_sub_spec sub x y hx hy
+  rw [h] at hs
+  cases hr : addSub sub x y with
+  | panic k => exact ⟨k, rfl⟩
+  | ok d => rw [hr] at hs; simp [Spec.allowedOp] at hs
+
+/-! ### non-vacuity: the former release-profile wrap-arounds (D11) now panic in every profile -/
+example : addSub false Dec.MAX Dec.ONE = .panic .overflow ∧ mulInt Dec.MAX 2 = .panic .overflow ∧
+    round Profile.release .heven Dec.MAX (-1) = .panic .overflow ∧ round Profile.dev .heven Dec.MAX (-1) = .panic .overflow := by
+  decide
 
 end Fpdec.Props.C20
